@@ -168,9 +168,9 @@ def main(ctx):
                 "Non-trivial: weights not None, or zeros, or ties present.")
     ctx.assumptions = ["plotting positions are ranks in the full sample (zeros included), zeros are left out of the regression",
                        "irregular array weights are a function of the observation's value, so tied observations share weights"]
-    ns = (30, 200) if ctx.quick else (30, 200, 5000)
-    scales = (0.01, 7.0) if ctx.quick else (0.01, 1.0, 7.0, 1e3)
-    deltas = (1.0, 2.35, None) if ctx.quick else (0.5, 1.0, 2.35, 5.0, None)
+    ns = (30, 200, 5000) if ctx.quick else (30, 200, 5000, 20000)
+    scales = (0.01, 1.0, 7.0, 1e3) if ctx.quick else (1e-6, 0.01, 1.0, 7.0, 1e3, 1e9)
+    deltas = (0.5, 1.0, 2.35, 5.0, None) if ctx.quick else (0.3, 0.5, 1.0, 1.7, 2.35, 5.0, 9.0, None)
     cases = []
     for src, n, zeros, ties in itertools.product(("ew", "weibull", "lognormal"), ns, (0, 1, 3), (False, True)):
         for wspec in WSPECS:
